@@ -7,7 +7,7 @@ Steps (worktree /tmp/wt/confirm, detached at /repo HEAD, reset before and after)
   3. patch only           -> cargo test --workspace --offline: 0 failed, >= 654 passed
 --benign: only step 3 (and the patch must apply)."""
 import json, os, re, subprocess, sys
-WT = "/tmp/wt/confirm"
+WT = os.environ.get("CONFIRM_WT", "/tmp/wt/confirm")
 
 
 def sh(cmd, **kw):
